@@ -151,9 +151,9 @@ func checkFloatLiteral(c *Ctx, cs *h.Case) {
 				c.Rec.Violate(cs, "DecodeFloat64 wrote target on error", "DecodeFloat64", "target unchanged", fmt.Sprint(tgt))
 			}
 		}
-		// longer whitespace prefixes (every length 3..24) on an eighth of the shorter literals: digit-count
+		// longer whitespace prefixes (every length 3..24) on an eighth (thorough: 5/12) of the shorter literals: digit-count
 		// and chunk thresholds must be measured from the number, not from the start of the data
-		if len(lit) < 64 && (c.Thorough() || h.Hash(cs.Input)%8 == 0) {
+		if len(lit) < 64 && ((c.Thorough() && h.Hash(cs.Input)%3 == 0) || h.Hash(cs.Input)%8 == 0) {
 			c.Rec.C("literals_swept_over_whitespace_prefix_lengths")
 			for k := 3; k <= 24; k++ {
 				in := make([]byte, 0, k+len(lit)+1)
@@ -378,6 +378,7 @@ func RunC05(c *Ctx) {
 	}
 	workload.W1R(sink)
 	workload.W1Words(sink)
+	workload.W1First(sink)
 	workload.W1D(func(cs *h.Case) {
 		if cs.P[3]>>8 <= 1 { // top-level contexts only
 			sink(cs)
